@@ -82,8 +82,11 @@ def gsvEnv : Gen.Env_llrp_Client_getSupportedVersion where
   set_GetSupportedVersionResponse_LLRPStatus := fun sv st => (sv.1, sv.2.1, st)
   get_GetSupportedVersionResponse_LLRPStatus := fun sv => sv.2.2
   get_LLRPStatus_Status := fun s => (s : Int)
-  zero_LLRPStatus := 0
-  set_LLRPStatus_Status := fun _ v => v.toNat
+  StatusError := Nat
+  Ptr_StatusError := Nat
+  conv_LLRPStatus_to_StatusError := fun s => s
+  addr_StatusError := fun w s => (w, s)
+  conv_Ptr_StatusError_to_error := fun s => .status s
   LLRPStatus_Err_1 := fun w s => (w, s, statusErr s)
   LLRPStatus_Err_2 := fun w s => (w, s, statusErr s)
   addr_GetSupportedVersionResponse := fun w sv => ({ w with heapGSV := sv }, true)
@@ -161,7 +164,8 @@ def gsvOut (w : NWorld) : NWorld × Bool × GoErr :=
   | .ok c m => ({ w1 with heapGSV := (c, m, 0) }, true, .nil)
   | .refused code => if code = 0 then ({ w1 with heapGSV := (1, 1, 0) }, true, .nil) else (w1, false, .new "%v returned an error: %v")
   | .errorMsg code =>
-    if code = 110 ∨ code = 0 then ({ w1 with heapGSV := (1, 1, 0) }, true, .nil) else (w1, false, .new "%v returned an error: %v")
+    if code = 110 then ({ w1 with heapGSV := (1, 1, 0) }, true, .nil)
+    else (w1, false, .wrap "%v returned an error: %w" (.status code))
   | .wrongType => (w1, false, .new "unexpected response to %v: %v")
   | .undecodable => (w1, false, .ext "undecodable")
   | .oversize => (w1, false, .ext "payload exceeds buffer limit")
@@ -178,10 +182,8 @@ theorem gsv_eq (w : NWorld) : Gen.llrp_Client_getSupportedVersion gsvEnv w () = 
   | errorMsg code =>
     by_cases h110 : code = 110
     · simp [Gen.llrp_Client_getSupportedVersion, gsvEnv, nSend, replyTyp, h, statusErr, h110]
-    · by_cases h0 : code = 0
-      · simp [Gen.llrp_Client_getSupportedVersion, gsvEnv, nSend, replyTyp, h, statusErr, h0]
-      · have : ¬ ((code : Int) = 110) := by omega
-        simp [Gen.llrp_Client_getSupportedVersion, gsvEnv, nSend, replyTyp, h, statusErr, h0, h110, this]
+    · have : ¬ ((code : Int) = 110) := by omega
+      simp [Gen.llrp_Client_getSupportedVersion, gsvEnv, nSend, replyTyp, h, statusErr, h110, this]
   | wrongType => simp [Gen.llrp_Client_getSupportedVersion, gsvEnv, nSend, replyTyp, h, statusErr]
   | undecodable => simp [Gen.llrp_Client_getSupportedVersion, gsvEnv, nSend, replyTyp, h, statusErr]
   | oversize => simp [Gen.llrp_Client_getSupportedVersion, gsvEnv, nSend, replyTyp, h, statusErr]
@@ -225,7 +227,7 @@ theorem src_negotiate (clientMax : Nat) (t : Int) (r1 r2 : Reply) (hm : clientMa
       have hgt : clientMax > 1 := by omega
       have hgt' : ((clientMax : Int) > 1) := by omega
       have hle : ¬ clientMax ≤ 1 := by omega
-      by_cases hc : code = 110 ∨ code = 0
+      by_cases hc : code = 110
       · simp [Gen.llrp_Client_negotiate, negEnv, gsv_eq, gsvOut, nInit, negotiate, supported, ht, hm', hc, gsvItem,
           Gen.StatusMsgVerUnsupported, Gen.StatusSuccess, hv, hgt, hgt', hle]
       · simp [Gen.llrp_Client_negotiate, negEnv, gsv_eq, gsvOut, nInit, negotiate, supported, ht, hm', hc, gsvItem,
